@@ -321,3 +321,91 @@ def gen_reentry_case(rng: random.Random):
             for k in range(5):
                 beh[a]['outputs'][f'{tt},{k}'] = [None, base + (['eo'] if k < kk else ['e2'] if k == kk else [])]
     return dict(n=n, types=types, grp=grp, edges=edges, until=until, beh=beh, init=init, maxloop=rng.choice([100, 100, 4]))
+
+
+def gen_queue_case(rng: random.Random):
+    """queue stress: several producers feed the trigger input(s) of one consumer with future-dated outputs, so that the
+    consumer's heap of pending steps receives many entries out of order, repeated demands for a pending (non-head) time
+    and demands earlier than the head"""
+    ns = rng.choice([1, 2, 2, 3])
+    n = ns + 1
+    dst = ns
+    types = [rng.choice(['hybrid', 'hybrid', 'event-based', 'time-based']) for _ in range(ns)] + [rng.choice(['event-based', 'hybrid'])]
+    grp = [[] for _ in range(n)]
+    if rng.random() < 0.3: grp = [[0] for _ in range(n)]
+    edges = []
+    for a in range(ns):
+        srcs = {'time-based': ['po'], 'event-based': ['eo', 'e2'], 'hybrid': ['po', 'eo', 'e2']}[types[a]]
+        for sa in rng.sample(srcs, rng.randint(1, len(srcs))):
+            kind = rng.choice(['p', 'p', 'ts'])
+            edges.append(dict(a=a, b=dst, sa=sa, da=rng.choice(['ti', 't2']), kind=kind, shift=rng.choice([1, 2]) if kind == 'ts' else 0, init=False))
+    until = rng.randint(5, 10)
+    beh = []
+    for i in range(n):
+        t = types[i]
+        if t == 'time-based':
+            # a time-based producer cannot stamp future times per step through default_output; give it scripted outputs
+            outs = {f'{tt},0': [tt + rng.randint(1, 4) if rng.random() < 0.6 else None, ['po']] for tt in range(until + 1)}
+            beh.append({'type': t, 'step_size': rng.choice([1, 1, 2]), 'default_output': [None, ['po']], 'outputs': outs})
+            continue
+        ss = {str(tt): tt + rng.randint(1, 2) for tt in range(until) if rng.random() < (0.7 if i != dst else 0.3)}
+        outs = {}
+        for tt in range(until + 1):
+            for k in range(3):
+                attrs = (['po'] if t == 'hybrid' else []) + [a for a in ('eo', 'e2') if rng.random() < 0.7]
+                outs[f'{tt},{k}'] = [tt + rng.randint(1, 4) if rng.random() < 0.6 else None, attrs]
+        beh.append({'type': t, 'self_steps': ss, 'outputs': outs})
+    init = [[i, rng.randint(0, 1)] for i in range(n) if types[i] == 'event-based' and (i != dst or rng.random() < 0.3)]
+    return dict(n=n, types=types, grp=grp, edges=edges, until=until, beh=beh, init=init, maxloop=100)
+
+
+def gen_parallel_case(rng: random.Random, clean=True):
+    """one ordered pair of simulators connected several times with different delays (the larger one first or last), on
+    different slots, dense data on every connection; optionally a third simulator up- or downstream"""
+    n = rng.choice([2, 2, 3])
+    types = [rng.choice(['hybrid', 'hybrid', 'time-based']) for _ in range(n)]
+    types[1] = rng.choice(['hybrid', 'hybrid', 'time-based', 'event-based'])
+    if types[0] == 'time-based' and types[1] == 'time-based' and rng.random() < 0.5: types[1] = 'hybrid'
+    same = rng.random() < 0.3
+    grp = [[0] if same else [] for _ in range(n)]
+    srcs = {'time-based': ['po'], 'event-based': ['eo', 'e2'], 'hybrid': ['po', 'eo', 'e2']}[types[0]]
+    dsts = {'time-based': ['i'], 'event-based': ['ti', 't2'], 'hybrid': ['i', 'ti', 't2']}[types[1]]
+    slots = [(sa, da) for sa in srcs for da in dsts]
+    rng.shuffle(slots)
+    used_s, used_d, chosen = set(), set(), []
+    for sa, da in slots:
+        if clean and (da in used_d): continue          # one connection per destination slot
+        chosen.append((sa, da)); used_s.add(sa); used_d.add(da)
+        if len(chosen) >= rng.choice([2, 2, 3]): break
+    delays = rng.sample([('p', 0), ('ts', 1), ('ts', 2), ('ts', 3)] + ([('w', 0)] if same and not clean else []), len(chosen))
+    edges = []
+    for (sa, da), (kind, shift) in zip(chosen, delays):
+        needs_init = kind != 'p' and da == 'i'
+        if clean and needs_init and sa != 'po': kind, shift, needs_init = 'p', 0, False
+        if clean and needs_init and any(e['sa'] == sa and e['init'] for e in edges): continue    # one initialised connection per source attribute
+        edges.append(dict(a=0, b=1, sa=sa, da=da, kind=kind, shift=shift, init=bool(needs_init)))
+    if n == 3:
+        if rng.random() < 0.5:
+            sa = rng.choice({'time-based': ['po'], 'event-based': ['eo'], 'hybrid': ['po', 'eo']}[types[1]])
+            da = rng.choice({'time-based': ['i'], 'event-based': ['ti'], 'hybrid': ['i', 'ti']}[types[2]])
+            edges.append(dict(a=1, b=2, sa=sa, da=da, kind='p', shift=0, init=False))
+        else:
+            sa = rng.choice({'time-based': ['po'], 'event-based': ['eo'], 'hybrid': ['po', 'eo']}[types[2]])
+            da = rng.choice({'time-based': ['i'], 'event-based': ['ti'], 'hybrid': ['i', 'ti']}[types[0]])
+            if not (clean and any(e['b'] == 0 and e['da'] == da for e in edges)):
+                edges.append(dict(a=2, b=0, sa=sa, da=da, kind='p', shift=0, init=False))
+    until = rng.randint(4, 8)
+    beh = []
+    for i in range(n):
+        t = types[i]
+        if t == 'time-based':
+            beh.append({'type': t, 'step_size': rng.choice([1, 1, 2, 3]), 'default_output': [None, ['po']]}); continue
+        ss = {str(tt): tt + rng.randint(1, 2) for tt in range(until) if rng.random() < 0.6}
+        outs = {}
+        for tt in range(until + 1):
+            for k in range(3):
+                attrs = (['po'] if t == 'hybrid' else []) + [a for a in ('eo', 'e2') if rng.random() < 0.75 and k == 0]
+                outs[f'{tt},{k}'] = [None, attrs]
+        beh.append({'type': t, 'self_steps': ss, 'outputs': outs})
+    init = [[i, rng.randint(0, 1)] for i in range(n) if types[i] == 'event-based']
+    return dict(n=n, types=types, grp=grp, edges=edges, until=until, beh=beh, init=init, maxloop=100)
